@@ -178,7 +178,8 @@ int main(int argc, char **argv) {
                 out("t%d:", t);
                 for (int j = 0; j < thr[t].n; j++) {
                     out(" %s:%llu:", thr[t].ops[j].op, thr[t].ops[j].k);
-                    if (thr[t].res[j] == -2) out("?"); else if (!strcmp(thr[t].ops[j].op, "i")) out("."); else if (thr[t].res[j] < 0) out("-"); else out("%ld", thr[t].res[j]);
+                    if (thr[t].res[j] == -2) { out("?@-1--1"); continue; }       /* did not return */
+                    if (!strcmp(thr[t].ops[j].op, "i")) out("."); else if (thr[t].res[j] < 0) out("-"); else out("%ld", thr[t].res[j]);
                     out("@%d-%d", thr[t].inv[j], thr[t].resp[j]);
                 }
                 out(" | ");
